@@ -189,6 +189,25 @@ func genOverlap(rt *rapid.T, oo overlapOpts) *overlapCase {
 		if len(optIDs) > 0 && rapid.IntRange(0, 2).Draw(rt, "optbias") == 0 {
 			pool = optIDs
 		}
+		// services with several dependencies of their own: their argument lists are assembled
+		// step by step, with other people's code running in between
+		var manyIDs []kit.Ident
+		for _, id := range ctorIDs {
+			if ow, ok := x.M.Owner(id); ok && id.Group == "" {
+				n := 0
+				for _, d := range x.M.Regs[ow.Reg].Deps {
+					if len(x.M.DepTargets(d)) > 0 {
+						n++
+					}
+				}
+				if n >= 2 {
+					manyIDs = append(manyIDs, id)
+				}
+			}
+		}
+		if len(manyIDs) > 0 && rapid.IntRange(0, 2).Draw(rt, "manybias") == 0 {
+			pool = manyIDs
+		}
 		c.A = Op{Kind: "get", Scope: atag, Ident: rapid.SampledFrom(pool).Draw(rt, "aid")}
 	case "create":
 		c.A = Op{Kind: "create", Scope: atag, Ctx: rapid.SampledFrom([]int{0, 1, 2}).Draw(rt, "actx")}
@@ -253,6 +272,21 @@ func genOverlap(rt *rapid.T, oo overlapOpts) *overlapCase {
 		}
 	case "get":
 		c.B = Op{Kind: "get", Scope: rapid.SampledFrom(live).Draw(rt, "btag"), Ident: rapid.SampledFrom(ids).Draw(rt, "bid2")}
+	case "same-get-elsewhere":
+		// the same service (same registration, same cached analysis) constructed in another scope meanwhile
+		c.B = Op{Kind: "get", Scope: rapid.SampledFrom(live).Draw(rt, "btag2"), Ident: rapid.SampledFrom(ids).Draw(rt, "bid4")}
+		if c.A.Kind == "get" {
+			c.B.Ident = c.A.Ident
+			var others []int
+			for _, t := range live {
+				if t != atag {
+					others = append(others, t)
+				}
+			}
+			if len(others) > 0 {
+				c.B.Scope = rapid.SampledFrom(others).Draw(rt, "bother")
+			}
+		}
 	case "dependent-get":
 		// B resolves, in A's scope, something that depends on what A is resolving
 		c.B = Op{Kind: "get", Scope: atag, Ident: rapid.SampledFrom(ids).Draw(rt, "bid3")}
@@ -525,10 +559,19 @@ func runOverlapTest(t *testing.T, prop, part, rule string, oo overlapOpts, oracl
 
 // ---- C02: two resolvers of the same scoped service, one parked in the constructor ----
 
+// c02ScheduleOpts: scoped-rich configurations whose services depend on each other a lot.
+func c02ScheduleOpts() kit.GenOpts {
+	o := kit.FullOpts()
+	o.MinRegs = 3
+	o.ChainBias = true
+	o.Lifetimes = []int{kit.Singleton, kit.Scoped, kit.Scoped, kit.Scoped, kit.Transient}
+	return o
+}
+
 func TestC02Schedules(t *testing.T) {
 	runOverlapTest(t, "C02", "controlled-schedules",
 		"controlled two-thread programs: thread A resolves an identity in a scope and is parked at the n-th constructor entry or exit it reaches (n<=4, i.e. also inside dependencies); thread B then resolves the same identity (or another one) in the same scope and runs until it returns or blocks; A is released; oracle = C02 ledger oracle (one successful construction per scoped registration and scope, both callers hold the same instance); non-trivial = A was actually parked inside a constructor",
-		overlapOpts{Gen: kit.FullOpts(), AKinds: []string{"get"}, BKinds: []string{"same-get", "same-get", "get"}, GateKind: allGates},
+		overlapOpts{Gen: c02ScheduleOpts(), AKinds: []string{"get"}, BKinds: []string{"same-get", "same-get", "get", "same-get-elsewhere", "same-get-elsewhere"}, GateKind: allGates},
 		func(c *overlapCase) *Failure {
 			if f := c.checkOverlapResults("C02"); f != nil && (f.Oracle == "no-hang" || f.Oracle == "no-panic") {
 				return f
